@@ -5,6 +5,7 @@ import (
 	"context"
 	"errors"
 	"fmt"
+	"io"
 	logslog "log/slog"
 	"strings"
 	"testing"
@@ -187,7 +188,13 @@ func TestHandler(t *testing.T) {
 		} else {
 			lg.SetLevel(L)
 		}
-		var h logslog.Handler = slog.NewSlogHandler(lg, opts)
+		var base slog.Logger = lg
+		if rapid.IntRange(0, 3).Draw(t, "loggerIsAUserDecorator") == 0 {
+			// NewSlogHandler takes the Logger interface: the adapter may be built on a user type that embeds a logger
+			base = decorated{lg}
+			labels["handler-on-user-defined-logger"] = true
+		}
+		var h logslog.Handler = slog.NewSlogHandler(base, opts)
 		slog.SetFlags(vlib.BaseFlags)
 		debug := L == slog.DebugLevel
 
@@ -451,7 +458,7 @@ func TestBridge(t *testing.T) {
 		format := rapid.SampledFrom([]string{"json", "logfmt"}).Draw(t, "format")
 		body := rapid.OneOf(rapid.StringMatching(`[a-z]{0,8}( [a-z]{1,8}){0,3}`), rapid.StringMatching(`[a-z]{1,5}\n[a-z]{1,5}`), vlib.GenAnyString()).Draw(t, "body")
 		msg := body + rapid.SampledFrom([]string{"", "\n", "\n\n"}).Draw(t, "trailingNewlines")
-		how := rapid.SampledFrom([]string{"Print", "Printf", "Println"}).Draw(t, "how")
+		how := rapid.SampledFrom([]string{"Print", "Printf", "Println", "Writer"}).Draw(t, "how")
 
 		log := vlib.NewEventLog()
 		w := vlib.NewRec(log, 1, 0)
@@ -471,6 +478,57 @@ func TestBridge(t *testing.T) {
 			debug = debug || L == slog.DebugLevel
 		}
 		desc := fmt.Sprintf("logger level %v (was %v when the bridge was built), bridge severity %v, %s(%q), format %s", L, built, S, how, msg, format)
+		if how == "Writer" {
+			// the bridge as a plain io.Writer (log.Logger.Writer(), as handed to io.Copy, exec.Cmd.Stderr, http.Server.ErrorLog
+			// users): a stream of messages, one per Write. Every message of the stream is a record when the severity is admitted
+			chunks := []string{strings.TrimRight(msg, "\n") + "\n"}
+			for i := rapid.IntRange(0, 3).Draw(t, "moreChunks"); i > 0; i-- {
+				chunks = append(chunks, rapid.StringMatching(`[a-z]{1,8}( [a-z]{1,8}){0,3}`).Draw(t, "chunk")+"\n")
+			}
+			admit := model.Admit(L, S, debug)
+			var copied int64
+			var cerr error
+			func() {
+				defer func() {
+					if p := recover(); p != nil {
+						t.Fatalf("C15 bridge %s: panicked: %v", desc, p)
+					}
+				}()
+				copied, cerr = io.Copy(std.Writer(), &chunkReader{chunks: chunks})
+			}()
+			writes := log.Writes()
+			if !admit {
+				if len(writes) != 0 {
+					vlib.Discrep(t, "C15/bridge-gate", "C15 bridge %s: %d records emitted for a stream copied to Writer(), the logger's gating says admitted=false", desc, len(writes))
+				}
+			} else {
+				if len(writes) != len(chunks) {
+					vlib.Discrep(t, "C15/bridge-stream", "C15 bridge %s: a stream of %d messages %q was copied to Writer() (io.Copy: %d bytes, error %v): %d records emitted", desc, len(chunks), chunks, copied, cerr, len(writes))
+				}
+				for i := 0; i < len(writes) && i < len(chunks); i++ {
+					wantMsg := strings.TrimSuffix(chunks[i], "\n")
+					p := writes[i].Payload
+					if S == slog.AlwaysLevel && strings.Trim(wantMsg, " \t\r\n") == "" {
+						if string(p) != "\n" {
+							t.Fatalf("C15 bridge %s: blank message at the Always severity must be a bare newline (C02), got %q", desc, p)
+						}
+						continue
+					}
+					exp := vlib.ExpRecord{LoggerName: "bridged", LevelName: vlib.BuiltinNames[S], Msg: wantMsg, TimeLayout: "15:04:05.000000Z07:00"}
+					var prob *vlib.Problem
+					if format == "json" {
+						prob = vlib.CheckJSONRecord(p, exp)
+					} else {
+						prob = vlib.CheckLogfmtRecord(p, exp, false)
+					}
+					if prob != nil {
+						vlib.Discrep(t, "C15/bridge-content", "C15 bridge %s: message %d of the stream: %s", desc, i, prob.Msg)
+					}
+				}
+			}
+			vlib.Case("TestBridge", fmt.Sprintf("%d|%d|%v|%s|%d", int(L), int(S), admit, how, len(chunks)), fmt.Sprintf("admit=%v", admit), "how="+how)
+			return
+		}
 		func() {
 			defer func() {
 				if p := recover(); p != nil {
@@ -565,3 +623,22 @@ func TestLogLevelMapping(t *testing.T) {
 
 var _ = errors.New
 var _ = time.Now
+
+// chunkReader hands out one chunk per Read.
+type chunkReader struct{ chunks []string }
+
+func (c *chunkReader) Read(p []byte) (int, error) {
+	if len(c.chunks) == 0 {
+		return 0, io.EOF
+	}
+	n := copy(p, c.chunks[0])
+	if n < len(c.chunks[0]) {
+		c.chunks[0] = c.chunks[0][n:]
+	} else {
+		c.chunks = c.chunks[1:]
+	}
+	return n, nil
+}
+
+// decorated is a user-defined Logger: it embeds one and adds nothing.
+type decorated struct{ slog.Logger }
